@@ -10,6 +10,29 @@ use proptest::prelude::*;
 use simple_dns::{Packet, SimpleDnsError};
 use std::io::Cursor;
 
+/// A growable writer that accepts at most `chunk` bytes per `write` call (legal for any `Write`:
+/// `write` may be short, `write_all` retries). Pointers and back-patched lengths must not depend on it.
+pub struct ChunkedWriter {
+    pub inner: Cursor<Vec<u8>>,
+    pub chunk: usize,
+}
+
+impl std::io::Write for ChunkedWriter {
+    fn write(&mut self, buf: &[u8]) -> std::io::Result<usize> {
+        let n = buf.len().min(self.chunk);
+        self.inner.write(&buf[..n])
+    }
+    fn flush(&mut self) -> std::io::Result<()> {
+        self.inner.flush()
+    }
+}
+
+impl std::io::Seek for ChunkedWriter {
+    fn seek(&mut self, pos: std::io::SeekFrom) -> std::io::Result<u64> {
+        self.inner.seek(pos)
+    }
+}
+
 /// framing oracle on one serialised message
 pub fn check_framing(out: &[u8], p: &APacket, what: &str) -> Result<(), Fail> {
     ensure!(out.len() >= 12, "c04:short", "{}: {} bytes", what, out.len());
@@ -83,6 +106,28 @@ fn writers(pk: &Packet, refp: &[u8], refc: &[u8], k: usize, case: &mut Case, swe
             }
         }
     }
+    // --- writers that accept only a few bytes per call
+    for (compressed, reference) in [(false, refp), (true, refc)] {
+        for chunk in [1usize, 3, 7] {
+            for start in [0usize, k] {
+                let mut w = ChunkedWriter { inner: Cursor::new(vec![0xEEu8; start]), chunk };
+                w.inner.set_position(start as u64);
+                let what = format!("{}(writer accepting {} bytes per call, at {})", if compressed { "write_compressed_to" } else { "write_to" }, chunk, start);
+                let r = if compressed { lib(&what, || pk.write_compressed_to(&mut w)) } else { lib(&what, || pk.write_to(&mut w)) };
+                let ok = write_err_ok(r, &what)?;
+                ensure!(ok, "c04:chunked-failed", "{} failed", what);
+                let v = w.inner.into_inner();
+                if v.len() != start + reference.len() || &v[start..] != reference {
+                    let at = (0..reference.len().min(v.len().saturating_sub(start))).find(|i| v[start + i] != reference[*i]);
+                    return Err(Fail::new(
+                        if compressed { "c04:chunked-differs-compressed" } else { "c04:chunked-differs-plain" },
+                        format!("{}: {} bytes written, the vector-returning entry point wrote {}; first difference at {:?}", what, v.len().saturating_sub(start), reference.len(), at),
+                    ));
+                }
+                n += 1;
+            }
+        }
+    }
     // --- fixed-size writers of every capacity
     let caps = |len: usize| -> Vec<usize> {
         if sweep_all {
@@ -150,6 +195,130 @@ fn check(input: &In, case: &mut Case) -> Result<(), Fail> {
     writers(&pk, &u, &c, k, case, sweep_all)
 }
 
+// ---- packets assembled through the other public constructors (text / map / setter based)
+
+/// (text length selector, character stream, attribute entries, SVCB setter mask, address bytes, trailing record?)
+pub type AltIn = (u16, Vec<u8>, Vec<(String, Option<String>)>, u8, Vec<u8>, bool);
+
+pub fn alt_strategy(_t: Tier) -> BoxedStrategy<AltIn> {
+    use proptest::collection::vec;
+    (
+        prop_oneof![4 => (0u16..6, -3i16..=3).prop_map(|(k, d)| ((k * 254) as i32 + d as i32).max(0) as u16), 1 => 0u16..1400],
+        vec(any::<u8>(), 1..32),
+        vec(("[a-z]{1,6}", proptest::option::of("[a-z0-9]{0,12}")), 0..4),
+        any::<u8>(),
+        vec(any::<u8>(), 20),
+        any::<bool>(),
+    )
+        .boxed()
+}
+
+pub fn build_alt<'a>(input: &'a AltIn, text: &'a str, alpn: &'a [String]) -> Result<Packet<'a>, Fail> {
+    use simple_dns::rdata::*;
+    use simple_dns::{CharacterString, Name, Question, ResourceRecord, CLASS, TYPE};
+    use std::convert::TryFrom;
+    let (_, _, attrs, mask, ip, trailing) = input;
+    let e = |what: &str, err: simple_dns::SimpleDnsError| Fail::new("c04:constructor-failed", format!("{}: {:?}", what, err));
+    let owner = Name::new("host.example.local").map_err(|x| e("Name::new", x))?;
+    let mut pk = Packet::new_query(0x0a0b).into_reply();
+    pk.questions.push(Question::new(Name::new_unchecked("example.local"), TYPE::TXT.into(), CLASS::IN.into(), false));
+    // TXT from text, from a map, and with_string
+    pk.answers.push(ResourceRecord::new(owner.clone(), CLASS::IN, 120, RData::TXT(TXT::try_from(text).map_err(|x| e("TXT::try_from(&str)", x))?)));
+    let map: std::collections::HashMap<String, Option<String>> = attrs.iter().cloned().collect();
+    pk.answers.push(ResourceRecord::new(owner.clone(), CLASS::IN, 120, RData::TXT(TXT::try_from(map).map_err(|x| e("TXT::try_from(map)", x))?)));
+    let mut t = TXT::new();
+    for (k, _) in attrs {
+        t = t.with_string(k).map_err(|x| e("with_string", x))?;
+    }
+    pk.answers.push(ResourceRecord::new(owner.clone(), CLASS::IN, 120, RData::TXT(t)).to_cache_flush_record());
+    // SVCB / HTTPS through the typed setters
+    let mut svcb = SVCB::new((*mask & 1) as u16, Name::new_unchecked("svc.example.local"));
+    if mask & 2 != 0 {
+        svcb.set_mandatory([1u16, 3].into_iter()).map_err(|x| e("set_mandatory", x))?;
+    }
+    if mask & 4 != 0 {
+        let ids: Vec<CharacterString> = alpn.iter().map(|a| CharacterString::try_from(a.as_str())).collect::<Result<_, _>>().map_err(|x| e("CharacterString::try_from", x))?;
+        svcb.set_alpn(ids).map_err(|x| e("set_alpn", x))?;
+    }
+    if mask & 8 != 0 {
+        svcb.set_no_default_alpn();
+    }
+    if mask & 16 != 0 {
+        svcb.set_port(u16::from_be_bytes([ip[0], ip[1]]));
+    }
+    if mask & 32 != 0 {
+        svcb.set_ipv4hint([u32::from_be_bytes([ip[0], ip[1], ip[2], ip[3]]), 1]).map_err(|x| e("set_ipv4hint", x))?;
+    }
+    if mask & 64 != 0 {
+        svcb.set_ipv6hint([u128::from_be_bytes(ip[4..20].try_into().unwrap())]).map_err(|x| e("set_ipv6hint", x))?;
+    }
+    pk.additional_records.push(ResourceRecord::new(owner.clone(), CLASS::IN, 1, if mask & 128 != 0 { RData::HTTPS(HTTPS(svcb)) } else { RData::SVCB(svcb) }));
+    // addresses from std types, HINFO from strings
+    let v4 = std::net::Ipv4Addr::new(ip[0], ip[1], ip[2], ip[3]);
+    let v6 = std::net::Ipv6Addr::from(<[u8; 16]>::try_from(&ip[4..20]).unwrap());
+    pk.additional_records.push(ResourceRecord::new(owner.clone(), CLASS::IN, 5, RData::A(A::from(v4))));
+    pk.additional_records.push(ResourceRecord::new(owner.clone(), CLASS::IN, 5, RData::AAAA(AAAA::from(v6))));
+    pk.name_servers.push(ResourceRecord::new(
+        owner.clone(),
+        CLASS::CH,
+        9,
+        RData::HINFO(HINFO { cpu: CharacterString::try_from(String::from("cpu")).map_err(|x| e("try_from(String)", x))?, os: CharacterString::try_from("").map_err(|x| e("try_from(&str)", x))? }),
+    ));
+    if *trailing {
+        pk.additional_records.push(ResourceRecord::new(Name::new_unchecked("example.local"), CLASS::IN, 5, RData::NS(NS(owner))));
+    }
+    Ok(pk)
+}
+
+pub fn alt_text(input: &AltIn) -> String {
+    let pool = ['a', 'z', '=', ';', 'é', '漢', '😀', ' '];
+    let mut s = String::new();
+    let mut i = 0;
+    while s.len() < input.0 as usize {
+        let c = pool[input.1[i % input.1.len()] as usize % pool.len()];
+        i += 1;
+        if s.len() + c.len_utf8() > input.0 as usize {
+            s.push('x');
+        } else {
+            s.push(c);
+        }
+    }
+    s
+}
+
+fn check_alt(input: &AltIn, case: &mut Case) -> Result<(), Fail> {
+    let text = alt_text(input);
+    let alpn = vec!["h2".to_string(), "h3".to_string()];
+    let pk = build_alt(input, &text, &alpn)?;
+    case.nontrivial = text.len() > 254 || !input.2.is_empty();
+    if text.len() > 254 {
+        case.class("multi-chunk-text");
+    }
+    let model = lib("observe", || observe(&pk))?;
+    let u = ser_plain(&pk).map_err(|f| Fail::new("c04:plain-failed", f.msg))?;
+    let c = ser_compressed(&pk).map_err(|f| Fail::new("c04:compressed-failed", f.msg))?;
+    check_framing(&u, &model, "build_bytes_vec (text/map/setter constructors)")?;
+    check_framing(&c, &model, "build_bytes_vec_compressed (text/map/setter constructors)")?;
+    // an empty TXT is written as one empty string: compare after that normalisation
+    let norm = |mut p: APacket| {
+        for r in p.answers.iter_mut().chain(p.authorities.iter_mut()).chain(p.additionals.iter_mut()) {
+            if let ARData::Typed { code: 16, fields } = &mut r.rdata {
+                if let Val::Strs(v) = &mut fields[0] {
+                    if v.is_empty() {
+                        v.push(crate::runner::Bytes(vec![]));
+                    }
+                }
+            }
+        }
+        p
+    };
+    let ou = reparse(&u, "c04:alt-unparseable", "plain output")?;
+    let oc = reparse(&c, "c04:alt-unparseable", "compressed output")?;
+    ensure!(ou == norm(model.clone()), "c04:alt-mismatch", "plain output parses differently from what was built: {}", diff(&norm(model.clone()), &ou));
+    ensure!(oc == norm(model.clone()), "c04:alt-mismatch", "compressed output parses differently from what was built: {}", diff(&norm(model.clone()), &oc));
+    writers(&pk, &u, &c, 5, case, false)
+}
+
 fn strategy(t: Tier) -> BoxedStrategy<In> {
     (gen::sharing(t), any::<u16>(), proptest::bool::weighted(0.15)).boxed()
 }
@@ -157,9 +326,12 @@ fn strategy(t: Tier) -> BoxedStrategy<In> {
 pub fn def() -> CheckDef {
     CheckDef {
         id: "C04",
-        rule: "proptest: suffix-sharing packets (as C03) x {plain, compressed} x writer configurations: Vec (plain), growable cursor at offset 0 / 2 / k over empty and over 0xEE-pre-filled storage longer than the message, &mut [u8] and Cursor<&mut [u8]> of capacities 0..=len+2 (every capacity for 15% of the packets up to 600 bytes, 11 boundary capacities otherwise). Oracles: independent envelope walker (counts == entries supplied, EDNS counted once, entries end exactly at the end, every RDATA decodes to exactly RDLENGTH by the schema); byte equality with the vector-returning entry points, untouched bytes before/after; Err(FailedToWrite) iff capacity < len. Non-trivial = >= 2 records and at least one pointer; evaluations count writer configurations",
+        rule: "proptest: suffix-sharing packets (as C03) x {plain, compressed} x writer configurations: Vec (plain), growable cursor at offset 0 / 2 / k over empty and over 0xEE-pre-filled storage longer than the message, writers accepting only 1 / 3 / 7 bytes per write call (at offset 0 and k), &mut [u8] and Cursor<&mut [u8]> of capacities 0..=len+2 (every capacity for 15% of the packets up to 600 bytes, 11 boundary capacities otherwise). Oracles: independent envelope walker (counts == entries supplied, EDNS counted once, entries end exactly at the end, every RDATA decodes to exactly RDLENGTH by the schema); byte equality with the vector-returning entry points, untouched bytes before/after; Err(FailedToWrite) iff capacity < len. A second section builds packets through the other public constructors (TXT::try_from(&str) around multiples of 254 bytes, TXT::try_from(HashMap), with_string, the SVCB/HTTPS setters, A/AAAA from std addresses, CharacterString::try_from, to_cache_flush_record, into_reply) and applies the same framing, writer and re-parse oracles. Non-trivial = >= 2 records and at least one pointer; evaluations count writer configurations",
         assumptions: vec!["same exclusions as C02", "the final cursor position is not part of the statement and is not checked"],
-        sections: vec![Box::new(PropSection { name: "writers", rule: "framing and writer agreement", strategy, cases: (40_000, 400_000), check })],
+        sections: vec![
+            Box::new(PropSection { name: "writers", rule: "framing and writer agreement", strategy, cases: (40_000, 400_000), check }),
+            Box::new(PropSection { name: "constructors", rule: "packets built through the text / map / setter constructors", strategy: alt_strategy, cases: (40_000, 400_000), check: check_alt }),
+        ],
     }
 }
 
